@@ -15,6 +15,13 @@
  *   foreach STOP [PREFIX]  qb_map_foreach with a callback that returns non-zero on its STOP-th
  *                          call (STOP = 0: never); with PREFIX the same loop is done by hand on a
  *                          prefix iterator                                                    -> visit N K V ... end|stop
+ *   foreachs STOP SCRIPT [PREFIX]   the same traversal with a callback that operates on the map from
+ *                          inside the callback: SCRIPT = `-` or comma-separated items `N:rm:K`, `N:put:K:V[:LVL]`,
+ *                          `N:get:K`, `N:count` executed (in script order) during the N-th call of the
+ *                          callback; K = hex key or `.` = the key the callback is shown (a fresh copy of
+ *                          it); then the callback continues, or stops when N = STOP
+ *                          -> visit N K V =R... K V =R... end|stop   (=R: result of each inner op, as the
+ *                          result line of the plain op)
  *   nadd K|* EV ID         qb_map_notify_add(key|NULL, cb, EV, (void*)ID)                     -> 0 | E<NAME>
  *   ndel K|* EV            qb_map_notify_del                                                  -> 0 | E<NAME>
  *   ndel2 K|* EV ID        qb_map_notify_del_2                                                -> 0 | E<NAME>
@@ -87,7 +94,8 @@ static void notify_cb(uint32_t event, char *key, void *old_value, void *value, v
 
 /* visited items of a traversal are collected in a memstream so that notifier lines the library
  * emits during the walk (deferred deletions) come before the op's single result line */
-struct fe { int stop; int n; FILE *mem; };
+struct sitem { int at; char op; char *key; long v; int lvl; };   /* key NULL = the key shown */
+struct fe { int stop; int n; FILE *mem; struct sitem *script; int nscript; };
 
 static void fe_item(struct fe *f, const char *key, void *value)
 {
@@ -108,6 +116,87 @@ static int32_t foreach_cb(const char *key, void *value, void *ud)
 	struct fe *f = ud;
 	fe_item(f, key, value);
 	return (f->stop > 0 && f->n >= f->stop) ? 1 : 0;
+}
+
+static char *key_dup(const char *k)
+{
+	char *b = strdup(k);
+	if (nkeys == capkeys) {
+		capkeys = capkeys ? 2 * capkeys : 64;
+		keys = realloc(keys, capkeys * sizeof(char *));
+	}
+	keys[nkeys++] = b;
+	return b;
+}
+
+/* the callback of `foreachs`: the item, then the scripted operations of this call number */
+static int32_t foreachs_cb(const char *key, void *value, void *ud)
+{
+	struct fe *f = ud;
+	int j;
+	fe_item(f, key, value);
+	for (j = 0; j < f->nscript; j++) {
+		struct sitem *it = &f->script[j];
+		char *k = NULL;
+		if (it->at != f->n) continue;
+		if (it->op != 'c') k = it->key ? key_dup(it->key) : key_dup(key);
+		if (it->op == 'r') {
+			fprintf(f->mem, " =%d", qb_map_rm(m, k) ? 1 : 0);
+		} else if (it->op == 'p') {
+			lvl_left = it->lvl;
+			qb_map_put(m, k, (void *)(intptr_t)it->v);
+			lvl_left = 0;
+			fputs(" =ok", f->mem);
+		} else if (it->op == 'g') {
+			void *v = qb_map_get(m, k);
+			if (v) fprintf(f->mem, " =%ld", (long)(intptr_t)v); else fputs(" =none", f->mem);
+		} else {
+			fprintf(f->mem, " =%zu", qb_map_count_get(m));
+		}
+	}
+	return (f->stop > 0 && f->n >= f->stop) ? 1 : 0;
+}
+
+/* SCRIPT -> items; returns -1 on a malformed script */
+static int parse_script(char *s, struct sitem **out)
+{
+	struct sitem *a = NULL;
+	int n = 0;
+	char *save = NULL, *tok;
+	*out = NULL;
+	if (strcmp(s, "-") == 0) return 0;
+	for (tok = strtok_r(s, ",", &save); tok; tok = strtok_r(NULL, ",", &save)) {
+		char *f[5] = { NULL, NULL, NULL, NULL, NULL };
+		int nf = 0;
+		char *q = tok;
+		struct sitem it;
+		while (nf < 5) {
+			f[nf++] = q;
+			q = strchr(q, ':');
+			if (!q) break;
+			*q++ = 0;
+		}
+		memset(&it, 0, sizeof it);
+		if (nf < 2) { free(a); return -1; }
+		it.at = atoi(f[0]);
+		if (strcmp(f[1], "rm") == 0 && nf == 3) it.op = 'r';
+		else if (strcmp(f[1], "get") == 0 && nf == 3) it.op = 'g';
+		else if (strcmp(f[1], "put") == 0 && (nf == 4 || nf == 5)) it.op = 'p';
+		else if (strcmp(f[1], "count") == 0 && nf == 2) it.op = 'c';
+		else { free(a); return -1; }
+		if (it.op != 'c' && strcmp(f[2], ".") != 0) {
+			it.key = key_copy(f[2]);
+			if (!it.key) { free(a); return -1; }
+		}
+		if (it.op == 'p') {
+			it.v = strtol(f[3], NULL, 10);
+			it.lvl = nf == 5 ? atoi(f[4]) : 0;
+		}
+		a = realloc(a, (n + 1) * sizeof *a);
+		a[n++] = it;
+	}
+	*out = a;
+	return n;
 }
 
 static qb_map_t *mk(void)
@@ -236,6 +325,37 @@ int main(void)
 			fclose(f.mem);
 			printf("visit %d%s %s\n", f.n, buf ? buf : "", stopped ? "stop" : "end");
 			free(buf);
+		} else if (strcmp(t[0], "foreachs") == 0 && nt >= 3) {
+			struct fe f;
+			char *buf = NULL;
+			size_t bl = 0;
+			int stopped = 0;
+			char *p = NULL;
+			memset(&f, 0, sizeof f);
+			if (nt > 3) {
+				p = key_copy(t[3]);
+				if (!p) { printf("bad-op\n"); continue; }
+			}
+			f.nscript = parse_script(t[2], &f.script);
+			if (f.nscript < 0) { printf("bad-op\n"); continue; }
+			f.stop = atoi(t[1]);
+			f.mem = open_memstream(&buf, &bl);
+			if (p) {
+				const char *k;
+				void *v = NULL;
+				qb_map_iter_t *it = qb_map_pref_iter_create(m, p);
+				for (k = qb_map_iter_next(it, &v); k; k = qb_map_iter_next(it, &v)) {
+					if (foreachs_cb(k, v, &f)) break;
+				}
+				qb_map_iter_free(it);
+			} else {
+				qb_map_foreach(m, foreachs_cb, &f);
+			}
+			stopped = (f.stop > 0 && f.n >= f.stop);
+			fclose(f.mem);
+			printf("visit %d%s %s\n", f.n, buf ? buf : "", stopped ? "stop" : "end");
+			free(buf);
+			free(f.script);
 		} else if ((strcmp(t[0], "nadd") == 0 && nt == 4) || (strcmp(t[0], "ndel2") == 0 && nt == 4) ||
 			   (strcmp(t[0], "ndel") == 0 && nt == 3)) {
 			char *k = NULL;
